@@ -856,3 +856,339 @@ Section C07.
     - apply (Hpop s); auto; [unfold task_layers; rewrite Hg; destruct out; reflexivity|intros tk' Hg'; rewrite Hg in Hg'; discriminate].
     - apply (Hpop s); auto; [unfold task_layers; rewrite Hg; reflexivity|intros tk' Hg'; rewrite Hg in Hg'; discriminate].
   Qed.
+
+  Lemma VS_view m m' fr fr' s s' : heap s' = heap s -> tasks s' = tasks s -> vc s' = vc s -> plainmode m' ->
+    vars_ok base s -> HI None s -> VS (mkC m fr s) (mkC m' fr' s').
+  Proof.
+    intros Hh Ht Hv Hm HV HH. pose proof (layers_view s s' Hh Ht) as Hl.
+    split; [|apply lifo_same; exact Hl]. apply VP_plain; [exact Hm|apply (vars_ok_same s); auto|apply (HI_view None s); auto].
+  Qed.
+
+  Lemma vp_MResume spec S t fr s : DL root res spec S (mkC (MResume t) fr s) -> VP (mkC (MResume t) fr s) ->
+    VS (mkC (MResume t) fr s) (step P (mkC (MResume t) fr s)).
+  Proof.
+    intros (HFL & HD & HPk & Hrd) HV. apply VP_plain_inv in HV as [HVO HH]; [|exact I].
+    destruct HFL as ((Hr & Hf & HS & Ht & (tk & Hg & Hcomp)) & HF & HK). cbn in HK, HS, HF, Hg.
+    destruct HK as ((old & ->) & (rest & Hts) & Hca).
+    cbn [step c_mode c_frames c_st]. unfold get_task. rewrite Hg.
+    destruct (SInv_entry _ _ _ _ _ HS Hg) as (_ & ot & Hst & _ & Hp & Hk). cbn in Hp, Hk.
+    destruct (Hk eq_refl ltac:(discriminate)) as (k & K1 & _). rewrite K1.
+    set (tk1 := mkTask (Some k) YNone (if p_keep P then tk_deps tk else []) (tk_ctxs tk) (tk_cact tk) (tk_ds tk) (tk_iter tk + 1) (tk_next tk)).
+    set (s2 := emit (EvStep t (tk_iter tk) (unwrap (look s) (tk_last tk))) (set_task t tk1 s)).
+    assert (U : upd_entry s s2 t (mkFut None (KTask tk1))).
+    { eapply upd_entry_view; [apply (set_task_upd s t None tk tk1 Hg)|reflexivity|reflexivity|reflexivity]. }
+    assert (Htk : tasks s2 = tasks s) by (apply tasks_of_regs; unfold s2; rewrite regs_emit, regs_set_task; reflexivity).
+    assert (Hl : layers s2 = layers s) by (apply (layers_same_entry s s2 t None tk tk1 Hg U Htk); reflexivity).
+    destruct (HH t tk Hg ltac:(discriminate)) as [N1 N2].
+    split; [|apply lifo_same; exact Hl].
+    unfold VP. cbn [c_mode c_st running_of]. split; [|split].
+    - apply (vars_ok_same s); [unfold s2; rewrite vc_emit, vc_set_task; reflexivity|exact Hl|exact HVO].
+    - apply (HI_chg None (Some t) s s2 t HH); [destruct U as (_ & B & _); exact B|intros; discriminate|].
+      intros tk' _ N. congruence.
+    - exists tk1. destruct U as (A & _). split; [exact A|]. split; [apply (N2 k K1)|exact N1].
+  Qed.
+
+  Lemma vp_MContRet spec S fr s : DL root res spec S (mkC MContRet fr s) -> VP (mkC MContRet fr s) ->
+    VS (mkC MContRet fr s) (step P (mkC MContRet fr s)).
+  Proof.
+    intros (HFL & _) HV. apply VP_plain_inv in HV as [HVO HH]; [|exact I].
+    destruct HFL as ((Hr & Hf & HS & Ht & _) & HF & HK). cbn in HK, HF.
+    destruct HK as (t & old & rest & -> & Hts & Hca).
+    cbn [step c_mode c_frames c_st].
+    set (s1 := with_active s old). unfold get_task. change (get t s1) with (get t s).
+    destruct (get t s) as [[out [tk| | |]]|] eqn:Hg; try (apply VS_view; auto; exact I).
+    pose proof (set_task_upd s1 t out tk (tk_set_ds tk false) Hg) as U.
+    assert (Hl : layers (set_task t (tk_set_ds tk false) s1) = layers s).
+    { rewrite (layers_same_entry s1 _ t out tk (tk_set_ds tk false) Hg U); [reflexivity|apply tasks_of_regs; apply regs_set_task|reflexivity|reflexivity]. }
+    split; [|apply lifo_same; exact Hl].
+    apply VP_plain; [exact I|apply (vars_ok_same s); [rewrite vc_set_task; reflexivity|exact Hl|exact HVO]|].
+    apply (HI_chg None None s _ t HH); [intros h N; destruct U as (_ & B & _); exact (B h N)|auto|].
+    intros tk' Hg' _. destruct U as (A & _). rewrite A in Hg'. inversion Hg'; subst. change (ctxs_ok tk). apply (HH t tk Hg). discriminate.
+  Qed.
+
+  Lemma enter_ctx_eff t c s out tk : get t s = Some (mkFut out (KTask tk)) ->
+    enter_ctx t c s = enter_eff t c (set_task t (tk_with_ctxs tk (tk_ctxs tk ++ [c]) (tk_cact tk)) s).
+  Proof. intros Hg. unfold enter_ctx, get_task, enter_eff. rewrite Hg. reflexivity. Qed.
+
+  Lemma exit_ctx_eff t c s out tk : get t s = Some (mkFut out (KTask tk)) ->
+    exit_ctx t c s = pause_plain t c (set_task t (tk_with_ctxs tk (remove_ctx c (tk_ctxs tk)) (tk_cact tk)) s).
+  Proof. intros Hg. unfold exit_ctx, get_task. rewrite Hg. reflexivity. Qed.
+
+  Lemma vp_MRun spec S t p fr s : DL root res spec S (mkC (MRun t p) fr s) -> VP (mkC (MRun t p) fr s) ->
+    VS (mkC (MRun t p) fr s) (step P (mkC (MRun t p) fr s)).
+  Proof.
+    intros (HFL & HD & HPk & Hrd & Hit) HV. unfold VP in HV. cbn [c_mode c_st running_of] in HV.
+    destruct HV as (HVO & HH & (tk0 & Hg0 & Hwn & Hnd)).
+    destruct HFL as ((Hr & Hf & HS & Ht & (Htree & Hst & (tk & Hg))) & HF & HK). cbn in HK, HS, HF, Hg, Ht.
+    rewrite Hg in Hg0. inversion Hg0; subst tk0. clear Hg0.
+    destruct HK as ((old & ->) & (rest & Hts) & Hca). pose proof (Hca tk Hg) as Hcact.
+    cbn [c_mode c_st] in HPk.
+    assert (Hnt : ~ In t rest) by (pose proof (pk_nodup _ _ _ _ HPk) as N; rewrite Hts in N; inversion N; assumption).
+    pose proof (SInv_plain _ _ _ _ _ _ HS Hg) as Hp.
+    cbn [step c_mode c_frames c_st]. unfold get_task. rewrite Hg.
+    assert (Hfin : tk_ctxs tk = [] -> forall o pp,
+              let s1 := set_task t (mkTask None (tk_last tk) (tk_deps tk) (tk_ctxs tk) (tk_cact tk) (tk_ds tk) (tk_iter tk) (tk_next tk)) s in
+              computed t s1 = false /\
+              VS (mkC (MRun t pp) [FCont t old; FExec 0; FWait root; FTop] s)
+                 (mkC MContRet [FCont t old; FExec 0; FWait root; FTop] (complete_task t o s1))).
+    { intros Hc0 o pp. cbn zeta.
+      set (tkc := mkTask None (tk_last tk) (tk_deps tk) (tk_ctxs tk) (tk_cact tk) (tk_ds tk) (tk_iter tk) (tk_next tk)).
+      pose proof (set_task_upd s t None tk tkc Hg) as U1. pose proof U1 as (G1 & _).
+      split; [unfold computed; rewrite G1; reflexivity|].
+      rewrite (complete_task_closed t o _ None tkc G1 eq_refl).
+      set (tkf := mkTask None YNone [] (tk_ctxs tkc) (tk_cact tkc) (tk_ds tkc) (tk_iter tkc) (tk_next tkc)).
+      set (s2 := emit (EvDone t o) (put t (mkFut (Some o) (KTask tkf)) (set_task t tkc s))).
+      assert (U2 : upd_entry s s2 t (mkFut (Some o) (KTask tkf))).
+      { eapply upd_entry_trans; [exact U1|]. eapply upd_entry_view; [apply upd_entry_put|reflexivity|reflexivity|reflexivity]. }
+      assert (Htk : tasks s2 = tasks s) by (apply tasks_of_regs; unfold s2; rewrite regs_emit, regs_put, regs_set_task; reflexivity).
+      assert (Hl : layers s2 = layers s).
+      { rewrite (layers_cons s2 t rest), (layers_cons s t rest Hts) by (rewrite Htk; exact Hts). f_equal.
+        - apply lower_ext. intros h Hh. destruct U2 as (_ & B & _). apply B. intros ->. contradiction.
+        - unfold task_layers. destruct U2 as (A & _). rewrite A, Hg, Hcact, Hc0. reflexivity. }
+      split; [|apply lifo_same; exact Hl].
+      apply VP_plain; [exact I|apply (vars_ok_same s); [unfold s2; rewrite vc_emit, vc_put, vc_set_task; reflexivity|exact Hl|exact HVO]|].
+      apply (HI_chg (Some t) None s s2 t HH); [destruct U2 as (_ & B & _); exact B|intros u N _ E; inversion E; congruence|].
+      intros tk' Hg' _. destruct U2 as (A & _). rewrite A in Hg'. discriminate. }
+    inversion Htree as [v Ev|v Ev|e Ev|y k Hl Hk Ev|c k Hc Hk Ev|c k Hc Hk Ev]; subst p.
+    - assert (Hc0 : tk_ctxs tk = []) by (inversion Hwn; congruence).
+      destruct (Hfin Hc0 (Ok v) (Ret v)) as (Hnc & HC). cbn zeta in *. rewrite Hnc. exact HC.
+    - assert (Hc0 : tk_ctxs tk = []) by (inversion Hwn; congruence).
+      destruct (Hfin Hc0 (Ok v) (Result v)) as (Hnc & HC). cbn zeta in *. rewrite Hnc. exact HC.
+    - assert (Hc0 : tk_ctxs tk = []) by (inversion Hwn; congruence).
+      destruct (Hfin Hc0 (Err e) (Raise e)) as (Hnc & HC). cbn zeta in *. unfold accept_error. rewrite Hnc. exact HC.
+    - (* Yield *)
+      assert (Hwy : (forall q, In (LNew (FTask q)) (leaves y) -> wn [] q) /\ (forall o, wn (tk_ctxs tk) (k o))) by (inversion Hwn; subst; auto).
+      assert (Hokl : forall l, In l (leaves y) -> okl l).
+      { intros l Hin. split; [apply Hl; exact Hin|]. intros q ->. apply Hwy. exact Hin. }
+      pose proof (new_ok_inst (Some t) t y s spec HS Hokl) as (NO1 & NO2 & NO3).
+      destruct (SInv_inst (Some t) t y spec s HS Hl) as (spec1 & (Ext & HS1 & Old) & Uw & A).
+      pose proof (regs_inst t y s) as Hri.
+      destruct (inst t y s) as [y' s1]. cbn [fst snd] in *.
+      assert (Hg1 : get t s1 = Some (mkFut None (KTask tk))) by (rewrite Old; [exact Hg|rewrite Hg; discriminate]).
+      rewrite Hg1.
+      set (tk2 := mkTask (Some k) y' (tk_deps tk ++ futs (extract y')) (tk_ctxs tk) (tk_cact tk) (tk_ds tk) (tk_iter tk) (tk_next tk)).
+      pose proof (set_task_upd s1 t None tk tk2 Hg1) as U2.
+      set (s2 := set_task t tk2 s1) in *.
+      assert (Htk2 : tasks s2 = tasks s).
+      { transitivity (tasks s1); [apply tasks_of_regs; apply regs_set_task|apply tasks_of_regs; exact Hri]. }
+      assert (Hl2 : layers s2 = layers s).
+      { rewrite (layers_cons s2 t rest), (layers_cons s t rest Hts) by (rewrite Htk2; exact Hts). f_equal.
+        - apply lower_ext. intros h Hh. destruct U2 as (_ & B & _). rewrite B by (intros ->; contradiction).
+          apply NO1. apply (pk_alloc _ _ _ _ HPk). rewrite Hts. right. exact Hh.
+        - apply (task_layers_same s s2 t None tk tk2 Hg); [destruct U2 as (A2 & _); exact A2|reflexivity|reflexivity]. }
+      assert (HV2 : vars_ok base s2).
+      { apply (vars_ok_same s); [unfold s2; rewrite vc_set_task; exact NO3|exact Hl2|exact HVO]. }
+      assert (HH2 : HI None s2).
+      { apply (HI_chg (Some t) None s1 s2 t).
+        - apply (HI_new (Some t) s s1 HH). split; [exact NO1|split; [exact NO2|exact NO3]].
+        - destruct U2 as (_ & B & _). exact B.
+        - intros u N _ E. inversion E. congruence.
+        - intros tk' Hg' _. destruct U2 as (A2 & _). rewrite A2 in Hg'. inversion Hg'; subst tk'.
+          split; [exact Hnd|]. cbn. intros k' E o. inversion E; subst. apply Hwy. }
+      destruct (tk_deps tk ++ futs (extract y')) as [|d0 dl];
+        (split; [apply VP_plain; [exact I|exact HV2|exact HH2]|apply lifo_same; exact Hl2]).
+    - (* Enter *)
+      assert (Hwe : ~ In (cid_of c) (map cid_of (tk_ctxs tk)) /\ wn (tk_ctxs tk ++ [c]) k) by (inversion Hwn; subst; auto).
+      destruct Hwe as [Hfc Hwk].
+      rewrite (enter_ctx_eff t c s None tk Hg).
+      set (tk1 := tk_with_ctxs tk (tk_ctxs tk ++ [c]) (tk_cact tk)).
+      pose proof (set_task_upd s t None tk tk1 Hg) as U1. set (sA := set_task t tk1 s) in *.
+      assert (HtA : tasks sA = t :: rest) by (rewrite (tasks_of_regs s); [exact Hts|apply regs_set_task]).
+      assert (HlA : layers sA = layers s ++ [(t, c)]).
+      { rewrite (layers_cons sA t rest HtA), (layers_cons s t rest Hts).
+        rewrite (lower_ext s sA rest) by (intros h Hh; destruct U1 as (_ & B & _); apply B; intros ->; contradiction).
+        destruct U1 as (A1 & _). rewrite (task_layers_active sA t tk1 A1 Hcact), (task_layers_active s t tk Hg Hcact).
+        unfold tk1. cbn [tk_ctxs tk_with_ctxs]. rewrite map_app, app_assoc. reflexivity. }
+      assert (Hfresh : ~ In (t, cid_of c) (map lkey (layers s))).
+      { rewrite (layers_cons s t rest Hts), map_app. intros Hin. apply in_app_or in Hin as [Hin|Hin].
+        - apply lower_keys in Hin. cbn in Hin. contradiction.
+        - rewrite (task_layers_active s t tk Hg Hcact), map_map in Hin. apply in_map_iff in Hin as (c' & E & Hc').
+          cbn in E. inversion E as [E']. apply Hfc. rewrite <- E'. apply in_map. exact Hc'. }
+      assert (HVA : VOs base sA (layers s)) by (apply (VOs_vc base s); [apply vc_set_task|exact HVO]).
+      pose proof (enter_eff_VOs base t c sA (layers s) Hc HVA Hfresh) as HVE.
+      assert (Hview : heap (enter_eff t c sA) = heap sA /\ tasks (enter_eff t c sA) = tasks sA) by (destruct c; split; reflexivity).
+      destruct Hview as [Hh He].
+      assert (HlE : layers (enter_eff t c sA) = layers s ++ [(t, c)]) by (rewrite (layers_view sA _ Hh He); exact HlA).
+      split; [|exists [(t, c)]; left; exact HlE].
+      unfold VP. cbn [c_mode c_st running_of]. split; [|split].
+      + unfold vars_ok. rewrite HlE. exact HVE.
+      + apply (HI_view (Some t) sA); [exact Hh|].
+        apply (HI_chg (Some t) (Some t) s sA t HH); [destruct U1 as (_ & B & _); exact B|auto|]. intros tk' _ N. congruence.
+      + exists tk1. split; [unfold get; rewrite Hh; destruct U1 as (A1 & _); exact A1|]. split; [exact Hwk|].
+        unfold tk1. cbn [tk_ctxs tk_with_ctxs]. rewrite map_app. apply NoDup_app_intro; [exact Hnd|constructor; [intros []|constructor]|].
+        intros z Hz [<-|[]]. apply Hfc. exact Hz.
+    - (* Exit *)
+      assert (Hwx : exists op, tk_ctxs tk = op ++ [c] /\ wn op k) by (inversion Hwn; subst; eauto).
+      destruct Hwx as (op & Eop & Hwk).
+      rewrite (exit_ctx_eff t c s None tk Hg).
+      assert (Hrm : remove_ctx c (tk_ctxs tk) = op) by (rewrite Eop; apply remove_ctx_last; rewrite <- Eop; exact Hnd).
+      rewrite Hrm.
+      set (tk1 := tk_with_ctxs tk op (tk_cact tk)).
+      pose proof (set_task_upd s t None tk tk1 Hg) as U1. set (sA := set_task t tk1 s) in *.
+      assert (HtA : tasks sA = t :: rest) by (rewrite (tasks_of_regs s); [exact Hts|apply regs_set_task]).
+      assert (Hls : layers s = layers sA ++ [(t, c)]).
+      { rewrite (layers_cons sA t rest HtA), (layers_cons s t rest Hts).
+        rewrite (lower_ext s sA rest) by (intros h Hh; destruct U1 as (_ & B & _); apply B; intros ->; contradiction).
+        destruct U1 as (A1 & _). rewrite (task_layers_active sA t tk1 A1 Hcact), (task_layers_active s t tk Hg Hcact).
+        unfold tk1. cbn [tk_ctxs tk_with_ctxs]. rewrite Eop, map_app, app_assoc. reflexivity. }
+      assert (HVA : VOs base sA (layers sA ++ [(t, c)])).
+      { unfold vars_ok in HVO. rewrite Hls in HVO. apply (VOs_vc base s); [apply vc_set_task|exact HVO]. }
+      pose proof (pause_plain_VOs base t c sA (layers sA) Hc HVA) as HVE.
+      assert (Hview : heap (pause_plain t c sA) = heap sA /\ tasks (pause_plain t c sA) = tasks sA) by (destruct c; split; reflexivity).
+      destruct Hview as [Hh He].
+      pose proof (layers_view sA _ Hh He) as HlE.
+      split; [|exists [(t, c)]; right; cbn [c_st]; rewrite HlE; exact Hls].
+      unfold VP. cbn [c_mode c_st running_of]. split; [|split].
+      + unfold vars_ok. rewrite HlE. exact HVE.
+      + apply (HI_view (Some t) sA); [exact Hh|].
+        apply (HI_chg (Some t) (Some t) s sA t HH); [destruct U1 as (_ & B & _); exact B|auto|]. intros tk' _ N. congruence.
+      + exists tk1. split; [unfold get; rewrite Hh; destruct U1 as (A1 & _); exact A1|]. split; [exact Hwk|].
+        unfold tk1. cbn [tk_ctxs tk_with_ctxs]. rewrite Eop, map_app in Hnd. cbn [map] in Hnd. apply NoDup_snoc in Hnd as [Hnd' _]. exact Hnd'.
+  Qed.
+
+  Theorem vl_step spec S c : is_unwind (c_mode c) = false -> VL spec S c ->
+    exists spec' S', VL spec' S' (step P c) /\ lifo (layers (c_st c)) (layers (c_st (step P c))).
+  Proof.
+    intros Hu (HD & HV). destruct (dl_step P HP root res spec S c Hu HD) as (spec' & S' & HD').
+    exists spec', S'.
+    assert (HS : VS c (step P c)).
+    { destruct c as [m fr s]. destruct m; cbn [c_mode is_unwind] in Hu; try discriminate.
+      - apply (vp_MValue spec S); assumption.
+      - apply (vp_MWaitHead spec S); assumption.
+      - apply (vp_MAfterExec spec S); assumption.
+      - apply (vp_MExecLoop spec S); assumption.
+      - apply (vp_MResume spec S); assumption.
+      - apply (vp_MRun spec S); assumption.
+      - apply (vp_MContRet spec S); assumption.
+      - apply (vp_MDeliver spec S); assumption.
+      - split; [exact HV|apply lifo_same; reflexivity].
+      - split; [exact HV|apply lifo_same; reflexivity]. }
+    destruct HS as [H1 H2]. split; [split; assumption|exact H2].
+  Qed.
+
+  Theorem vl_run n : forall spec S c, VL spec S c -> no_unwind P n c -> exists spec' S', VL spec' S' (run P n c).
+  Proof.
+    induction n as [|n IH]; intros spec S c HI0 Hn; [exists spec, S; exact HI0|].
+    rewrite run_S. destruct (is_final (c_mode c)) eqn:Hf; [exists spec, S; exact HI0|].
+    destruct (vl_step spec S c) as (spec1 & S1 & HI1 & _); [apply (Hn O); lia|exact HI0|].
+    apply (IH spec1 S1); [exact HI1|].
+    intros k Hk. specialize (Hn (Datatypes.S k) ltac:(lia)). rewrite run_S, Hf in Hn. exact Hn.
+  Qed.
+End C07.
+
+Lemma run_step P n : forall c, run P (S n) c = step P (run P n c).
+Proof.
+  induction n as [|n IH]; intros c.
+  - rewrite run_S. cbn [run]. destruct (is_final (c_mode c)) eqn:Hf; [|reflexivity].
+    destruct c as [m fr s]. destruct m; try discriminate; reflexivity.
+  - rewrite run_S. rewrite (run_S P n c). destruct (is_final (c_mode c)) eqn:Hf; [|apply IH].
+    destruct c as [m fr s]. destruct m; try discriminate; reflexivity.
+Qed.
+
+(* ------------------------------------------------------------------ C07 theorems (tree programs, well-nested with-blocks) *)
+Section C07_theorems.
+  Variable P : params.
+  Hypothesis HP : pointwise P.
+  Variable p : prog.
+  Hypothesis Ht : tree p.
+  Hypothesis Hw : wn [] p.
+
+  Let h := fst (create [] (FTask p) (st0 P)).
+  Let s1 := snd (create [] (FTask p) (st0 P)).
+  Let base : Z -> val := fun x => var_get x s1.
+
+  Lemma vl_reach n : no_unwind P n (start h s1) -> exists spec S, VL h (eval p) base spec S (run P n (start h s1)).
+  Proof.
+    intros Hn.
+    assert (H0 : no_unwind P 0 (start h s1)) by (intros k Hk; assert (k = O) as -> by lia; reflexivity).
+    destruct (dl_reach P HP p Ht 0 H0) as (spec & S & HD). fold h s1 in HD. cbn [run] in HD.
+    apply (vl_run P HP h (eval p) base n spec S (start h s1)); [|exact Hn].
+    split; [exact HD|]. unfold VP, start. cbn [c_mode c_st running_of]. split; [|split; [|exact I]].
+    - assert (Hl : layers s1 = []) by reflexivity. unfold vars_ok. rewrite Hl. split; [|split].
+      + intros x. reflexivity.
+      + intros pre t cid var v post E. destruct pre; discriminate.
+      + constructor.
+    - intros u tk Hgu _. unfold s1, create, alloc in Hgu. cbn in Hgu. destruct (fid_eqb u [top_next (st0 P)]) eqn:E.
+      + apply fid_eqb_eq in E. subst u. rewrite get_put_same in Hgu. inversion Hgu. split; cbn; [constructor|].
+        intros k Ek o. inversion Ek. exact Hw.
+      + assert (N : u <> [top_next (st0 P)]) by (intros ->; rewrite fid_eqb_refl in E; discriminate).
+        rewrite get_put_other in Hgu by exact N. discriminate.
+  Qed.
+
+  (* T1 restoration: at every flush point (the _execute pass has ended) and when the outermost call has
+     returned, with a value or an error, every scoped value is what it was before the computation *)
+  Theorem values_restored_tree n :
+    no_unwind P n (start h s1) ->
+    (c_mode (run P n (start h s1)) = MAfterExec \/ exists o, c_mode (run P n (start h s1)) = MDone o) ->
+    forall x, var_get x (c_st (run P n (start h s1))) = var_get x s1.
+  Proof.
+    intros Hn Hm x. destruct (vl_reach n Hn) as (spec & S & (HD & HV)).
+    destruct (run P n (start h s1)) as [m fr s]. cbn [c_mode c_st] in *. destruct Hm as [->|(o & ->)].
+    - destruct HD as ((_ & _ & HK) & _). cbn in HK. destruct HV as ((A & _) & _). cbn [c_st] in A.
+      rewrite A. unfold layers. rewrite HK. reflexivity.
+    - apply HV.
+  Qed.
+
+  (* T2 reads: while the body of t runs, the scoped variables are the initial values overridden by the
+     layers in order; the layers are those of uncomputed tasks below t on the scheduler stack whose
+     contexts are active, followed by t's own open contexts in entry order *)
+  Theorem reads_see_enclosing_overrides_tree n t q :
+    no_unwind P n (start h s1) -> c_mode (run P n (start h s1)) = MRun t q ->
+    let s := c_st (run P n (start h s1)) in
+    (forall x, var_get x s = apply_l (fun x => var_get x s1) (layers s) x) /\
+    exists tk rest, get t s = Some (mkFut None (KTask tk)) /\ tk_cact tk = true /\ wn (tk_ctxs tk) q /\
+      tasks s = t :: rest /\ layers s = lower s rest ++ map (pair t) (tk_ctxs tk) /\
+      forall u c, In (u, c) (lower s rest) ->
+        In u rest /\ exists tku, get u s = Some (mkFut None (KTask tku)) /\ tk_cact tku = true /\ In c (tk_ctxs tku).
+  Proof.
+    intros Hn Hm. cbn zeta. destruct (vl_reach n Hn) as (spec & S & (HD & HV)).
+    destruct (run P n (start h s1)) as [m fr s]. cbn [c_mode c_st] in *. subst m.
+    unfold VP in HV. cbn [c_mode c_st running_of] in HV. destruct HV as ((A & _) & _ & (tk & Hg & Hwn & _)).
+    destruct HD as ((_ & _ & HK) & _). cbn in HK. destruct HK as (_ & (rest & Hts) & Hca).
+    split; [exact A|]. exists tk, rest. split; [exact Hg|]. split; [apply Hca; exact Hg|]. split; [exact Hwn|].
+    split; [exact Hts|]. split.
+    - rewrite (layers_cons s t rest Hts). f_equal. apply task_layers_active; [exact Hg|apply Hca; exact Hg].
+    - intros u c Hin. apply (lower_in s rest u c Hin).
+  Qed.
+
+  (* corollary: a variable has the value of the innermost (last) override layer for it, or its initial
+     value when no active layer overrides it *)
+  Theorem reads_innermost_tree n t q x :
+    no_unwind P n (start h s1) -> c_mode (run P n (start h s1)) = MRun t q ->
+    let s := c_st (run P n (start h s1)) in
+    (forall pre u cid v post, layers s = pre ++ (u, COverride cid x v) :: post ->
+       (forall l, In l post -> ovar (snd l) <> Some x) -> var_get x s = v) /\
+    ((forall l, In l (layers s) -> ovar (snd l) <> Some x) -> var_get x s = var_get x s1).
+  Proof.
+    intros Hn Hm. cbn zeta. destruct (reads_see_enclosing_overrides_tree n t q Hn Hm) as (A & _). cbn zeta in A.
+    destruct (apply_l_innermost (fun x => var_get x s1) (layers (c_st (run P n (start h s1)))) x) as [I1 I2].
+    split.
+    - intros pre u cid v post E Hpost. rewrite A. apply (I1 pre u cid v post E Hpost).
+    - intros Hno. rewrite A. apply I2. exact Hno.
+  Qed.
+
+  (* T3 nesting: each machine step changes the list of active contexts at its END only - whatever was
+     resumed last is paused first, across all tasks *)
+  Theorem contexts_nest_lifo_tree n :
+    no_unwind P n (start h s1) ->
+    lifo (layers (c_st (run P n (start h s1)))) (layers (c_st (run P (S n) (start h s1)))).
+  Proof.
+    intros Hn. destruct (vl_reach n Hn) as (spec & S & HVL).
+    destruct (vl_step P HP h (eval p) base spec S _ (Hn n (le_n n)) HVL) as (_ & _ & _ & HL).
+    rewrite run_step. exact HL.
+  Qed.
+
+  (* the full invariant at every reachable configuration that is not final: the variables are the base
+     overridden by the layers, each override instance remembers the value below it, layer keys are distinct *)
+  Theorem saved_values_tree n :
+    no_unwind P n (start h s1) ->
+    match c_mode (run P n (start h s1)) with
+    | MUnwind _ | MStuck | MDone _ => True
+    | _ => vars_ok (fun x => var_get x s1) (c_st (run P n (start h s1)))
+    end.
+  Proof.
+    intros Hn. destruct (vl_reach n Hn) as (spec & S & (_ & HV)).
+    destruct (run P n (start h s1)) as [m fr s]. unfold VP in HV. cbn [c_mode c_st] in *.
+    destruct m; try exact I; apply HV.
+  Qed.
+End C07_theorems.
